@@ -1,209 +1,313 @@
-"""GenRange.v -- S3RangeFile's position arithmetic and range computation, translated (C20).
+"""GenRange.v -- the seekable S3 reader's integer kernels and open_seekable's wiring, translated (C20).
 
-    gen_rf_seek          S3RangeFile.seek      (size pos offset : Z) (w : whence) -> new position, or None = ValueError
-    gen_rf_readinto_req  S3RangeFile.readinto  (size pos want : Z) -> None = returns 0 without any request,
-                                                                      Some (first, last) = the ONE range it requests
-    gen_rf_readall_req   S3RangeFile.readall   (size pos : Z)      -> None = returns b"" without any request, Some (first, last)
-    gen_rf_advance       the position update after a read: `self._pos += <number of bytes received>`
+From src/datashard/storage_backend.py
+    gen_rf_seek     pos size offset whence   S3RangeFile.seek, whole body: Some (new self._pos, returned value), or
+                                             None where the source raises ValueError (and leaves self._pos alone)
+    gen_rf_readinto pos size want            S3RangeFile.readinto: the statements up to the ranged GET:
+                                             None = returns 0 without any request, Some (first, last) = the byte range
+                                             handed to self._get_range; the rest of the body (copy the bytes, advance
+                                             self._pos by the number of bytes RECEIVED, return that number) is checked
+                                             against a fixed shape
+    gen_rf_readall  pos size                 S3RangeFile.readall: likewise (None = returns b"" without a request)
+    gen_open_key    prefix path              S3StorageBackend.open_seekable: the key handed to the reader
+    gen_open_size_path path                  S3StorageBackend.open_seekable: the path whose get_size() becomes the
+                                             reader's size
+    gen_code_open_notfound / gen_code_readtag_notfound   the error-code literal compared in open_file's open_op /
+                                             read_file_with_etag's read_op (mapped to FileNotFoundError)
+Checked and fail-closed (Unsupported) rather than emitted, because the model has no vocabulary for the alternative:
+  * open_seekable is exactly  key = <str expr>; size = self.get_size(<str expr>); return io.BufferedReader(
+    S3RangeFile(self.s3, self.bucket, key, size), ...)  -- the size a reader works with is the answer of a get_size()
+    made by THIS call (no remembered value), the reader reads the key computed by THIS call;
+  * S3RangeFile.__init__ stores key / size as given and starts at position 0; _size and _key are assigned nowhere
+    else; _pos is assigned only in __init__ / seek / readinto / readall; tell() returns self._pos;
+  * _get_range sends exactly  Range: bytes=<first>-<last>  for self._key (golden digest);
+  * open_file / S3FileStream.read / read_file_with_etag / write_file_cas (hand-modelled in Model/Backend.v: Stream,
+    ReadTag, WriteCas) are pinned by golden digests.
 
-coq/Model/Range.v models the reader by hand (rf_step; it carries the C20 range theorems); Proofs/RangeGenProofs.v proves
-rf_step equal to the composition of these generated kernels with the object store's answer, for all inputs.
-
-Subset: `if / elif / else` chains on `whence == io.SEEK_*` assigning one local, `raise ValueError`, comparisons and
-`or`, `min`, `+`, `-`, `len(b)`, `self._pos`, `self._size`, one `self._get_range(first, last)` call per read whose
-result's length advances the position.  Anything else: Unsupported (fail closed).
+Accepted subset for the integer kernels (anything else raises Unsupported):
+  int expr : parameters, self._pos, self._size, locals, int constants, io.SEEK_SET/CUR/END, a + b, a - b,
+             min(a, b), max(a, b), len(<the buffer parameter>)
+  bool expr: a == b, a != b, a < b, a <= b, a > b, a >= b, not, and, or
+  stmts    : x = e, self._pos = e, if/elif/else, raise ValueError(...), return e
 """
 from __future__ import annotations
 
 import ast
-from typing import Dict, List, Optional, Tuple
+import hashlib
+from typing import Dict, List, Optional
 
-from core import Unsupported, find_function, generator, parse_module, strip_docstring
+from core import Unsupported, dump, find_function, generator, parse_module, strip_docstring
+from gen_s3 import Env as SEnv, find_code_compare, lit, sexpr
 
-
-def _u(n: ast.AST) -> str:
-    return ast.unparse(n)
-
-
-def arith(e: ast.AST, env: Dict[str, str], where: str) -> str:
-    if isinstance(e, ast.Name) and e.id in env:
-        return env[e.id]
-    if isinstance(e, ast.Attribute) and _u(e) in env:
-        return env[_u(e)]
-    if isinstance(e, ast.Constant) and isinstance(e.value, int) and not isinstance(e.value, bool):
-        return f"({e.value})"
-    if isinstance(e, ast.BinOp) and isinstance(e.op, (ast.Add, ast.Sub)):
-        return f"({arith(e.left, env, where)} {'+' if isinstance(e.op, ast.Add) else '-'} {arith(e.right, env, where)})"
-    if isinstance(e, ast.Call) and isinstance(e.func, ast.Name) and e.func.id in ("min", "max") and len(e.args) == 2 and not e.keywords:
-        return f"(Z.{e.func.id} {arith(e.args[0], env, where)} {arith(e.args[1], env, where)})"
-    if isinstance(e, ast.Call) and _u(e.func) == "len" and len(e.args) == 1 and _u(e.args[0]) in env:
-        return env[_u(e.args[0])]
-    raise Unsupported(f"{where}: arithmetic outside the subset: {_u(e)}")
+IO_CONST = {"SEEK_SET": 0, "SEEK_CUR": 1, "SEEK_END": 2}
 
 
-def cond(e: ast.AST, env: Dict[str, str], where: str) -> str:
-    if isinstance(e, ast.BoolOp):
-        op = "||" if isinstance(e.op, ast.Or) else "&&"
-        return "(" + f" {op} ".join(cond(v, env, where) for v in e.values) + ")"
-    if isinstance(e, ast.Compare) and len(e.ops) == 1:
-        sym = {ast.Lt: "<?", ast.LtE: "<=?", ast.Gt: ">?", ast.GtE: ">=?", ast.Eq: "=?"}.get(type(e.ops[0]))
-        if sym:
-            return f"({arith(e.left, env, where)} {sym} {arith(e.comparators[0], env, where)})"
-    raise Unsupported(f"{where}: condition outside the subset: {_u(e)}")
+class ZEnv:
+    def __init__(self, names: Dict[str, str], attrs: Dict[str, str], len_of: Optional[Dict[str, str]] = None):
+        self.names = dict(names)        # python local / parameter -> Gallina name
+        self.attrs = dict(attrs)        # self.<attr> -> Gallina name (current value)
+        self.len_of = dict(len_of or {})  # python name whose len() is the Gallina name
+
+    def copy(self) -> "ZEnv":
+        return ZEnv(self.names, self.attrs, self.len_of)
+
+    def fresh(self, base: str) -> str:
+        used = set(self.names.values()) | set(self.attrs.values())
+        i = 1
+        while f"{base}_{i}" in used:
+            i += 1
+        return f"{base}_{i}"
 
 
-WHENCE = {"io.SEEK_SET": "SeekSet", "io.SEEK_CUR": "SeekCur", "io.SEEK_END": "SeekEnd"}
+def zexpr(n: ast.AST, env: ZEnv) -> str:
+    if isinstance(n, ast.Name) and n.id in env.names:
+        return env.names[n.id]
+    if isinstance(n, ast.Attribute) and isinstance(n.value, ast.Name):
+        if n.value.id == "self" and n.attr in env.attrs:
+            return env.attrs[n.attr]
+        if n.value.id == "io" and n.attr in IO_CONST:
+            return f"{IO_CONST[n.attr]}"
+    if isinstance(n, ast.Constant) and isinstance(n.value, int) and not isinstance(n.value, bool) and 0 <= n.value < 10 ** 9:
+        return str(n.value)
+    if isinstance(n, ast.BinOp) and isinstance(n.op, (ast.Add, ast.Sub)):
+        return f"({zexpr(n.left, env)} {'+' if isinstance(n.op, ast.Add) else '-'} {zexpr(n.right, env)})"
+    if isinstance(n, ast.Call) and isinstance(n.func, ast.Name) and not n.keywords:
+        if n.func.id in ("min", "max") and len(n.args) == 2:
+            return f"(Z.{n.func.id} {zexpr(n.args[0], env)} {zexpr(n.args[1], env)})"
+        if n.func.id == "len" and len(n.args) == 1 and isinstance(n.args[0], ast.Name) and n.args[0].id in env.len_of:
+            return env.len_of[n.args[0].id]
+    raise Unsupported(f"integer expression not supported: {dump(n)}")
 
 
-def gen_seek(cls: ast.AST) -> str:
-    fn = find_function(cls, "seek")
-    where = "S3RangeFile.seek"
-    if [a.arg for a in fn.args.args] != ["self", "offset", "whence"] or _u(fn.args.defaults[0]) != "io.SEEK_SET":
-        raise Unsupported(f"{where}: signature changed")
-    body = strip_docstring(fn.body)
-    env = {"offset": "offset", "self._pos": "pos", "self._size": "size"}
-    if not (len(body) == 4 and isinstance(body[0], ast.If)):
-        raise Unsupported(f"{where}: shape changed")
-    # if / elif chain on whence
-    arms: Dict[str, str] = {}
-    node: Optional[ast.stmt] = body[0]
-    default = None
-    var = None
-    while isinstance(node, ast.If):
-        t = node.test
-        if not (isinstance(t, ast.Compare) and _u(t.left) == "whence" and len(t.ops) == 1 and isinstance(t.ops[0], ast.Eq)
-                and _u(t.comparators[0]) in WHENCE):
-            raise Unsupported(f"{where}: test {_u(t)}")
-        if not (len(node.body) == 1 and isinstance(node.body[0], ast.Assign) and isinstance(node.body[0].targets[0], ast.Name)):
-            raise Unsupported(f"{where}: arm body {_u(node.body[0])[:60]}")
-        v = node.body[0].targets[0].id
-        if var not in (None, v):
-            raise Unsupported(f"{where}: arms assign different variables")
-        var = v
-        w = WHENCE[_u(t.comparators[0])]
-        if w in arms:
-            raise Unsupported(f"{where}: duplicate arm {w}")
-        arms[w] = arith(node.body[0].value, env, where)
-        if len(node.orelse) == 1 and isinstance(node.orelse[0], ast.If):
-            node = node.orelse[0]
-        else:
-            default = node.orelse
-            node = None
-    if not (default and len(default) == 1 and isinstance(default[0], ast.Raise) and _u(default[0].exc).startswith("ValueError(")):
-        raise Unsupported(f"{where}: the final else does not raise ValueError")
-    g = body[1]
-    env2 = dict(env)
-    env2[var] = "new"
-    if not (isinstance(g, ast.If) and not g.orelse and len(g.body) == 1 and isinstance(g.body[0], ast.Raise)
-            and _u(g.body[0].exc).startswith("ValueError(")):
-        raise Unsupported(f"{where}: guard after the arms changed")
-    guard = cond(g.test, env2, where)
-    if _u(body[2]) != f"self._pos = {var}" or _u(body[3]) != "return self._pos":
-        raise Unsupported(f"{where}: does not store and return the new position")
-    lines = [f"    | {w} => Some {arms[w]}" for w in ("SeekSet", "SeekCur", "SeekEnd") if w in arms]
-    missing = [w for w in ("SeekSet", "SeekCur", "SeekEnd") if w not in arms]
-    for w in missing:
-        lines.append(f"    | {w} => None")
-    return ("(* S3RangeFile.seek: the new position (stored in _pos and returned); None = ValueError, _pos unchanged *)\n"
-            "Definition gen_rf_seek (size pos offset : Z) (w : whence) : option Z :=\n"
-            "  match (match w with\n" + "\n".join(lines) + "\n    | SeekBad => None\n    end) with\n"
-            f"  | Some new => if {guard} then None else Some new\n  | None => None\n  end.\n")
+CMP = {ast.Eq: "=?", ast.Lt: "<?", ast.LtE: "<=?", ast.Gt: ">?", ast.GtE: ">=?"}
 
 
-def _read_fn(cls: ast.AST, name: str, params: List[str], first_stmts: int) -> Tuple[ast.FunctionDef, List[ast.stmt]]:
-    fn = find_function(cls, name)
-    if [a.arg for a in fn.args.args] != params:
-        raise Unsupported(f"S3RangeFile.{name}: signature changed")
-    return fn, strip_docstring(fn.body)
+def zbool(n: ast.AST, env: ZEnv) -> str:
+    if isinstance(n, ast.BoolOp):
+        op = "&&" if isinstance(n.op, ast.And) else "||"
+        return "(" + f" {op} ".join(zbool(v, env) for v in n.values) + ")"
+    if isinstance(n, ast.UnaryOp) and isinstance(n.op, ast.Not):
+        return f"(negb {zbool(n.operand, env)})"
+    if isinstance(n, ast.Compare) and len(n.ops) == 1:
+        a, b = zexpr(n.left, env), zexpr(n.comparators[0], env)
+        if isinstance(n.ops[0], ast.NotEq):
+            return f"(negb ({a} =? {b}))"
+        for k, sym in CMP.items():
+            if isinstance(n.ops[0], k):
+                return f"({a} {sym} {b})"
+    raise Unsupported(f"condition not supported: {dump(n)}")
 
 
-def gen_readinto(cls: ast.AST) -> str:
-    where = "S3RangeFile.readinto"
-    fn, body = _read_fn(cls, "readinto", ["self", "b"], 0)
-    src = [_u(s) for s in body]
-    env = {"self._pos": "pos", "self._size": "size", "b": "want"}       # len(b) -> want
-    if not (len(body) == 8 and src[0] == "want = len(b)" and isinstance(body[1], ast.If) and not body[1].orelse
-            and [_u(x) for x in body[1].body] == ["return 0"]):
-        raise Unsupported(f"{where}: shape changed: {src[:2]}")
-    env["want"] = "want"
-    early = cond(body[1].test, env, where)
-    if not (isinstance(body[2], ast.Assign) and _u(body[2].targets[0]) == "last"):
-        raise Unsupported(f"{where}: `last = ...` missing")
-    last = arith(body[2].value, env, where)
-    c = body[3]
-    if not (isinstance(c, ast.Assign) and _u(c.targets[0]) == "data" and isinstance(c.value, ast.Call)
-            and _u(c.value.func) == "self._get_range" and len(c.value.args) == 2 and not c.value.keywords):
-        raise Unsupported(f"{where}: the range request changed: {src[3]}")
-    env["last"] = "last"
-    first = arith(c.value.args[0], env, where)
-    lastarg = arith(c.value.args[1], env, where)
-    if src[4:] != ["n = len(data)", "b[:n] = data", "self._pos += n", "return n"]:
-        raise Unsupported(f"{where}: the tail (copy the received bytes, advance by their number) changed: {src[4:]}")
-    return ("(* S3RangeFile.readinto(b), want = len(b): None = returns 0 and issues no request *)\n"
-            "Definition gen_rf_readinto_req (size pos want : Z) : option (Z * Z) :=\n"
-            f"  if {early} then None\n  else let last := {last} in Some ({first}, {lastarg}).\n")
+def _is_self_attr(t: ast.AST, attr: str) -> bool:
+    return isinstance(t, ast.Attribute) and isinstance(t.value, ast.Name) and t.value.id == "self" and t.attr == attr
 
 
-def gen_readall(cls: ast.AST) -> str:
-    where = "S3RangeFile.readall"
-    fn, body = _read_fn(cls, "readall", ["self"], 0)
-    src = [_u(s) for s in body]
-    env = {"self._pos": "pos", "self._size": "size"}
-    if not (len(body) == 4 and isinstance(body[0], ast.If) and not body[0].orelse and [_u(x) for x in body[0].body] == ["return b''"]):
-        raise Unsupported(f"{where}: shape changed: {src[:1]}")
-    early = cond(body[0].test, env, where)
-    c = body[1]
-    if not (isinstance(c, ast.Assign) and _u(c.targets[0]) == "data" and isinstance(c.value, ast.Call)
-            and _u(c.value.func) == "self._get_range" and len(c.value.args) == 2 and not c.value.keywords):
-        raise Unsupported(f"{where}: the range request changed: {src[1]}")
-    first = arith(c.value.args[0], env, where)
-    last = arith(c.value.args[1], env, where)
-    if src[2:] != ["self._pos += len(data)", "return data"]:
-        raise Unsupported(f"{where}: the tail changed: {src[2:]}")
-    return ("(* S3RangeFile.readall(): None = returns b'' and issues no request *)\n"
-            "Definition gen_rf_readall_req (size pos : Z) : option (Z * Z) :=\n"
-            f"  if {early} then None else Some ({first}, {last}).\n")
+def zstmts(body: List[ast.stmt], env: ZEnv, terminal) -> str:
+    """Statement list -> Gallina term of type option _.  `terminal(stmts, env)` is offered every suffix first and
+    returns the term for it (or None to let the generic rules apply)."""
+    t = terminal(body, env)
+    if t is not None:
+        return t
+    if not body:
+        raise Unsupported("a path through the method falls off the end")
+    s, rest = body[0], body[1:]
+    if isinstance(s, ast.Assign) and len(s.targets) == 1:
+        tg = s.targets[0]
+        if isinstance(tg, ast.Name):
+            e = zexpr(s.value, env)
+            env2 = env.copy()
+            v = env.fresh(tg.id)
+            env2.names[tg.id] = v
+            return f"(let {v} := {e} in\n   {zstmts(rest, env2, terminal)})"
+        if _is_self_attr(tg, "_pos"):
+            e = zexpr(s.value, env)
+            env2 = env.copy()
+            v = env.fresh("pos")
+            env2.attrs["_pos"] = v
+            return f"(let {v} := {e} in\n   {zstmts(rest, env2, terminal)})"
+    if isinstance(s, ast.If):
+        c = zbool(s.test, env)
+        return f"(if {c}\n   then {zstmts(s.body + rest, env, terminal)}\n   else {zstmts(s.orelse + rest, env, terminal)})"
+    if isinstance(s, ast.Raise) and isinstance(s.exc, ast.Call) and isinstance(s.exc.func, ast.Name) and s.exc.func.id == "ValueError":
+        if env.attrs.get("_pos") != "pos":
+            raise Unsupported("ValueError raised after self._pos was changed")
+        return "None"
+    raise Unsupported(f"statement not supported: {dump(s)}")
 
 
-def check_get_range(cls: ast.AST) -> None:
-    fn = find_function(cls, "_get_range")
-    txt = _u(fn)
-    for need in ("Range=f'bytes={first}-{last}'", "Bucket=self._bucket", "Key=self._key", "return with_s3_retry(op,"):
-        if need not in txt:
-            raise Unsupported(f"S3RangeFile._get_range: `{need}` missing (the request is no longer bytes=first-last of this object, retried)")
-    tell = find_function(cls, "tell")
-    if [_u(s) for s in strip_docstring(tell.body)] != ["return self._pos"]:
-        raise Unsupported("S3RangeFile.tell changed")
-    init = find_function(cls, "__init__")
-    if "self._pos = 0" not in _u(init) or "self._size = size" not in _u(init):
-        raise Unsupported("S3RangeFile.__init__: initial position / size binding changed")
+def digest(node) -> str:
+    return hashlib.sha256(dump(node).encode()).hexdigest()[:16]
+
+
+# Golden AST digests (computed on the repaired tree; print with `python gen_range.py <src dir>`).
+PINS = {
+    ("S3RangeFile", "__init__"): "db75f65efcf4343c",
+    ("S3RangeFile", "tell"): "27fcbc1f812b90bf",
+    ("S3RangeFile", "_get_range"): "4a98dbc3f6085381",
+    ("S3FileStream", "read"): "6c25217c7f02295c",
+    ("S3StorageBackend", "open_file"): "8b190d05be9dbeaa",
+    ("S3StorageBackend", "read_file_with_etag"): "1924451be4583b66",
+    ("S3StorageBackend", "write_file_cas"): "f026aa939c17f9c2",
+}
+
+READINTO_TAIL = ("[Assign([Name('n', Store())], Call(Name('len', Load()), [Name('data', Load())], [])), "
+                 "Assign([Subscript(Name('b', Load()), Slice(upper=Name('n', Load())), Store())], Name('data', Load())), "
+                 "AugAssign(Attribute(Name('self', Load()), '_pos', Store()), Add(), Name('n', Load())), "
+                 "Return(Name('n', Load()))]")
+READALL_TAIL = ("[AugAssign(Attribute(Name('self', Load()), '_pos', Store()), Add(), Call(Name('len', Load()), [Name('data', Load())], [])), "
+                "Return(Name('data', Load()))]")
+
+
+def pin_digests(sb: ast.Module) -> Dict[tuple, str]:
+    return {k: digest(strip_docstring(find_function(sb, k[1], k[0]).body)) for k in PINS}
+
+
+def _get_range_call(s: ast.stmt):
+    """`data = self._get_range(a, b)` -> (a, b) or None."""
+    if isinstance(s, ast.Assign) and len(s.targets) == 1 and isinstance(s.targets[0], ast.Name) and s.targets[0].id == "data" \
+            and isinstance(s.value, ast.Call) and _is_self_attr(s.value.func, "_get_range") and len(s.value.args) == 2 and not s.value.keywords:
+        return s.value.args
+    return None
+
+
+def read_terminal(tail_dump: str, empty_return: str, what: str):
+    def terminal(body: List[ast.stmt], env: ZEnv) -> Optional[str]:
+        if not body:
+            return None
+        s = body[0]
+        if isinstance(s, ast.Return):
+            if dump(s.value) != empty_return:
+                raise Unsupported(f"{what}: early return of something other than the empty result: {dump(s)}")
+            return "None"
+        args = _get_range_call(s)
+        if args is not None:
+            if dump(body[1:]) != tail_dump:
+                raise Unsupported(f"{what}: statements after the ranged GET changed shape.\n expected {tail_dump}\n got      {dump(body[1:])}")
+            if env.attrs.get("_pos") != "pos":
+                raise Unsupported(f"{what}: self._pos changed before the ranged GET")
+            return f"Some ({zexpr(args[0], env)}, {zexpr(args[1], env)})"
+        return None
+    return terminal
+
+
+def seek_terminal(body: List[ast.stmt], env: ZEnv) -> Optional[str]:
+    if body and isinstance(body[0], ast.Return) and body[0].value is not None:
+        if len(body) != 1:
+            raise Unsupported("seek: statements after return")
+        return f"Some ({env.attrs['_pos']}, {zexpr(body[0].value, env)})"
+    return None
+
+
+def check_attr_writes(cls: ast.ClassDef) -> None:
+    """_size / _key only in __init__; _pos only in __init__, seek, readinto, readall."""
+    allowed = {"_size": {"__init__"}, "_key": {"__init__"}, "_pos": {"__init__", "seek", "readinto", "readall"},
+               "_s3": {"__init__"}, "_bucket": {"__init__"}}
+    for fn in cls.body:
+        if not isinstance(fn, ast.FunctionDef):
+            continue
+        for n in ast.walk(fn):
+            tg = n.targets if isinstance(n, ast.Assign) else [n.target] if isinstance(n, (ast.AugAssign, ast.AnnAssign)) else []
+            for t in tg:
+                for a in ast.walk(t):
+                    if isinstance(a, ast.Attribute) and isinstance(a.value, ast.Name) and a.value.id == "self" and isinstance(a.ctx, ast.Store):
+                        if a.attr not in allowed:
+                            raise Unsupported(f"S3RangeFile.{fn.name} assigns an attribute the model does not know: self.{a.attr}")
+                        if fn.name not in allowed[a.attr]:
+                            raise Unsupported(f"S3RangeFile.{fn.name} assigns self.{a.attr}")
+            if isinstance(n, ast.Call) and isinstance(n.func, ast.Name) and n.func.id in ("setattr", "delattr"):
+                raise Unsupported(f"S3RangeFile.{fn.name} uses {n.func.id}")
 
 
 @generator("GenRange.v")
-def gen(src: str) -> str:
+def gen_range(src: str) -> str:
     sb = parse_module(src, "storage_backend.py")
-    cls = None
-    for n in ast.walk(sb):
-        if isinstance(n, ast.ClassDef) and n.name == "S3RangeFile":
-            cls = n
+    got = pin_digests(sb)
+    bad = [f"{k[0]}.{k[1]} (expected {PINS[k]}, got {v})" for k, v in got.items() if PINS[k] != v]
+    if bad:
+        raise Unsupported("hand-modelled code changed shape (golden AST digest): " + "; ".join(bad))
+    cls = next((c for c in ast.walk(sb) if isinstance(c, ast.ClassDef) and c.name == "S3RangeFile"), None)
     if cls is None:
         raise Unsupported("class S3RangeFile not found")
-    check_get_range(cls)
-    return "\n".join([
-        "(* GENERATED by translator/gen_range.py from storage_backend.py (class S3RangeFile) -- do not edit. *)",
-        "From Coq Require Import ZArith List Bool.",
-        "Require Import DS.Model.Range.",
-        "Open Scope Z_scope.",
-        "",
-        gen_seek(cls),
-        gen_readinto(cls),
-        gen_readall(cls),
-        "(* `self._pos += <number of bytes received>` *)",
-        "Definition gen_rf_advance (pos n : Z) : Z := pos + n.",
-        "",
-    ])
+    check_attr_writes(cls)
+
+    # ---- seek
+    f = find_function(sb, "seek", "S3RangeFile")
+    if [a.arg for a in f.args.args] != ["self", "offset", "whence"]:
+        raise Unsupported("S3RangeFile.seek signature changed")
+    seek = zstmts(strip_docstring(f.body), ZEnv({"offset": "offset", "whence": "whence"}, {"_pos": "pos", "_size": "size"}), seek_terminal)
+
+    # ---- readinto
+    f = find_function(sb, "readinto", "S3RangeFile")
+    if [a.arg for a in f.args.args] != ["self", "b"]:
+        raise Unsupported("S3RangeFile.readinto signature changed")
+    readinto = zstmts(strip_docstring(f.body), ZEnv({}, {"_pos": "pos", "_size": "size"}, {"b": "want"}),
+                      read_terminal(READINTO_TAIL, "Constant(0)", "S3RangeFile.readinto"))
+
+    # ---- readall
+    f = find_function(sb, "readall", "S3RangeFile")
+    if [a.arg for a in f.args.args] != ["self"]:
+        raise Unsupported("S3RangeFile.readall signature changed")
+    readall = zstmts(strip_docstring(f.body), ZEnv({}, {"_pos": "pos", "_size": "size"}),
+                     read_terminal(READALL_TAIL, "Constant(b'')", "S3RangeFile.readall"))
+
+    # ---- open_seekable
+    f = find_function(sb, "open_seekable", "S3StorageBackend")
+    if [a.arg for a in f.args.args] != ["self", "path"]:
+        raise Unsupported("S3StorageBackend.open_seekable signature changed")
+    body = strip_docstring(f.body)
+    if len(body) != 3:
+        raise Unsupported(f"open_seekable: expected `key = ...; size = self.get_size(...); return io.BufferedReader(S3RangeFile(...))`, got {len(body)} statements: {dump(body)}")
+    k_as, s_as, ret = body
+    senv = SEnv({"path": "path"}, {"prefix": "prefix"}, allow_get_key=True)
+    if not (isinstance(k_as, ast.Assign) and len(k_as.targets) == 1 and isinstance(k_as.targets[0], ast.Name) and k_as.targets[0].id == "key"):
+        raise Unsupported(f"open_seekable: first statement is not `key = ...`: {dump(k_as)}")
+    open_key = sexpr(k_as.value, senv)
+    if not (isinstance(s_as, ast.Assign) and len(s_as.targets) == 1 and isinstance(s_as.targets[0], ast.Name) and s_as.targets[0].id == "size"
+            and isinstance(s_as.value, ast.Call) and _is_self_attr(s_as.value.func, "get_size") and len(s_as.value.args) == 1 and not s_as.value.keywords):
+        raise Unsupported(f"open_seekable: the reader's size is not `size = self.get_size(<path>)`: {dump(s_as)}")
+    size_path = sexpr(s_as.value.args[0], SEnv({"path": "path"}, {}))
+    r = ret.value if isinstance(ret, ast.Return) else None
+    ok = (isinstance(r, ast.Call) and dump(r.func) == "Attribute(Name('io', Load()), 'BufferedReader', Load())" and len(r.args) == 1
+          and all(kw.arg == "buffer_size" for kw in r.keywords)
+          and dump(r.args[0]) == "Call(Name('S3RangeFile', Load()), [Attribute(Name('self', Load()), 's3', Load()), "
+                                 "Attribute(Name('self', Load()), 'bucket', Load()), Name('key', Load()), Name('size', Load())], [])")
+    if not ok:
+        raise Unsupported(f"open_seekable: does not return io.BufferedReader(S3RangeFile(self.s3, self.bucket, key, size), ...): {dump(ret)}")
+
+    code_open = find_code_compare(find_function(sb, "open_file", "S3StorageBackend"), (ast.Eq,), "open_file")
+    code_readtag = find_code_compare(find_function(sb, "read_file_with_etag", "S3StorageBackend"), (ast.Eq,), "read_file_with_etag")
+
+    return f"""(* GENERATED by translator/gen_range.py from src/datashard/storage_backend.py -- do not edit *)
+From Coq Require Import List Bool Ascii String ZArith.
+Require Import DS.Model.Str DS.Gen.GenS3.
+Import ListNotations.
+Open Scope Z_scope.
+
+(* S3RangeFile.seek: Some (new self._pos, returned value) | None = ValueError, self._pos unchanged *)
+Definition gen_rf_seek (pos size offset whence : Z) : option (Z * Z) :=
+  {seek}.
+
+(* S3RangeFile.readinto(b), want = len(b): None = returns 0 without a request | Some (first, last) handed to _get_range *)
+Definition gen_rf_readinto (pos size want : Z) : option (Z * Z) :=
+  {readinto}.
+
+(* S3RangeFile.readall: None = returns b"" without a request | Some (first, last) handed to _get_range *)
+Definition gen_rf_readall (pos size : Z) : option (Z * Z) :=
+  {readall}.
+
+(* S3StorageBackend.open_seekable: the key the reader reads, and the path whose get_size() is the reader's size *)
+Definition gen_open_key (prefix path : str) : str :=
+  {open_key}.
+Definition gen_open_size_path (path : str) : str :=
+  {size_path}.
+
+(* the GetObject error code open_file / read_file_with_etag turn into FileNotFoundError *)
+Definition gen_code_open_notfound : str := {lit(code_open)}.
+Definition gen_code_readtag_notfound : str := {lit(code_readtag)}.
+"""
 
 
 if __name__ == "__main__":
     import sys
-    print(gen(sys.argv[1]))
+    for k, v in pin_digests(parse_module(sys.argv[1], "storage_backend.py")).items():
+        print(f'    {k!r}: "{v}",')
